@@ -198,11 +198,15 @@ class ZoneAnalysis:
         if not body.local_ty(0).startswith('std::vec::Vec<usize'):
             return []
         ds = [d for d in fd.defs.get(0, []) if not d[2].get('dst', {}).get('p')]
+        if len(ds) == 1 and ds[0][0] == 'call' and (ds[0][2].get('callee') or '') == 'std::iter::Iterator::collect' and ds[0][2]['args']:
+            return self._retelem_of_chain(zf, ds[0][2]['args'][0])
         if len(ds) != 1 or ds[0][0] != 'assign' or ds[0][2]['rv']['k'] != 'use' or ds[0][2]['rv']['op']['k'] not in ('copy', 'move') \
                 or ds[0][2]['rv']['op']['pl'].get('p'):
             return []
         root = fd.resolve_place(ds[0][2]['rv']['op']['pl'])[0]
         cr = fd.defs.get(root, [])
+        if len(cr) == 1 and cr[0][0] == 'call' and (cr[0][2].get('callee') or '') == 'std::iter::Iterator::collect':
+            return self._retelem_of_chain(zf, cr[0][2]['args'][0])
         if len(cr) != 1 or cr[0][0] != 'call' or not (cr[0][2].get('callee') or '').endswith(('Vec::<T>::new', 'Vec::<T>::with_capacity')):
             return []
         pushes = []
@@ -235,6 +239,31 @@ class ZoneAnalysis:
             if ok:
                 out.append((1, T))
         return out
+
+    def _retelem_of_chain(self, zf, op, depth=0):
+        """elements collected from `(a..b)` through adaptors that only select or reorder (filter, rev, take, skip ...) are all below b"""
+        if op['k'] not in ('copy', 'move') or depth > 10 or op['pl'].get('p'):
+            return []
+        d = zf.single_def(op['pl']['l'])
+        if d is None:
+            return []
+        kind, bi, x = d
+        if kind == 'assign' and not x['dst'].get('p'):
+            rv = x['rv']
+            if rv['k'] == 'use' and rv['op']['k'] in ('copy', 'move'):
+                return self._retelem_of_chain(zf, rv['op'], depth + 1)
+            if rv['k'] == 'agg' and rv.get('name') == 'std::ops::Range' and len(rv.get('ops', [])) == 2:
+                e = zf.term_op(rv['ops'][1])
+                if e is not None and self._param_term_ok(zf, e) and zf.body.local_ty(0).startswith('std::vec::Vec<usize'):
+                    return [(1, e)]
+            return []
+        if kind == 'call' and x['args']:
+            cal = x.get('callee') or ''
+            if cal in ('std::iter::Iterator::filter', 'std::iter::Iterator::rev', 'std::iter::Iterator::take', 'std::iter::Iterator::skip',
+                       'std::iter::Iterator::take_while', 'std::iter::Iterator::skip_while', 'std::iter::IntoIterator::into_iter',
+                       'std::iter::Iterator::step_by', 'std::iter::Iterator::peekable', 'std::iter::Iterator::by_ref'):
+                return self._retelem_of_chain(zf, x['args'][0], depth + 1)
+        return []
 
     def _retlen_lb(self, zf):
         """lower bound of the length of a returned Vec (field) that is only ever grown inside the function."""
@@ -623,14 +652,15 @@ class ZoneAnalysis:
             self._discharge(zf, s)
         self._lift_closure_sites(zf)
 
-    def _closure_term(self, zf, caps, es, t, left):
+    def _closure_term(self, zf, czf, caps, t, left):
         """a term of a closure body (element parameter, captures, captured containers) in the terms of the body that creates the closure"""
         if t is None:
             return None
         sy, c = t
         if sy is None:
             return t
-        if sy == 'p2':
+        if sy[0] == 'p' and sy[1:2].isdigit():
+            es = czf.closure_elem_sym(sy)
             return (es, c) if (left and es is not None) else None      # `every element` may only strengthen the left-hand side
         if sy.startswith('cap') and sy[3:].isdigit() and int(sy[3:]) < len(caps):
             return tadd(zf.term_op(caps[int(sy[3:])]), c)
@@ -655,7 +685,6 @@ class ZoneAnalysis:
             if cctx is None or cctx[0] is not zf or cctx[3] is None:
                 continue
             pzf, cb, caps, (bi, t) = cctx
-            es = zf.elem_sym_of_iter(t['args'][0]) if (t.get('callee') or '').startswith('std::iter::Iterator::') and t['args'] else None
             import audit as _audit
             for cs in czf.sites:
                 if cs.status != 'unknown' or not cs.need:
@@ -664,7 +693,7 @@ class ZoneAnalysis:
                     continue      # decided by an audited argument about when the closure runs at all (not expressible as a conjunction of bounds)
                 need = []
                 for (a, b) in cs.need:
-                    a2, b2 = self._closure_term(zf, caps, es, a, True), self._closure_term(zf, caps, es, b, False)
+                    a2, b2 = self._closure_term(zf, czf, caps, a, True), self._closure_term(zf, czf, caps, b, False)
                     if a2 is None or b2 is None:
                         need = None
                         break
@@ -791,6 +820,10 @@ class ZoneAnalysis:
         for (t1, t2) in facts:
             if (t2, t1) in facts and t1 is not None and t2 is not None:
                 eqs.setdefault(t1[0], []).append((t1, t2))
+        self._ub_facts = {}
+        for (t1, t2) in facts:
+            if t1 is not None and t2 is not None and t1[0] is not None and self._param_term_ok(zf, t2) and not self._param_term_ok(zf, t1):
+                self._ub_facts.setdefault(t1[0], []).append((t1, t2))
         out = []
         for (a, c) in needs:
             a2, c2 = self._to_param(zf, a, eqs, left=True), self._to_param(zf, c, eqs)
@@ -811,6 +844,12 @@ class ZoneAnalysis:
             cand = tadd(t2, t[1] - t1[1])
             if self._param_term_ok(zf, cand):
                 return cand
+        if left and t is not None:
+            # a loop index / local bounded by a parameter term: s + c1 <= U  =>  s + c <= U + (c - c1); requiring the bound for U is stronger
+            for (t1, t2) in getattr(self, '_ub_facts', {}).get(t[0], []):
+                cand = tadd(t2, t[1] - t1[1])
+                if self._param_term_ok(zf, cand):
+                    return cand
         return None
 
     def _ct_guarded(self, zf, s):
